@@ -26,7 +26,8 @@ type Cex struct {
 	Backend    string            `json:"backend"`
 	Inputs     map[string]string `json:"inputs"`
 	Note       string            `json:"note,omitempty"`
-	Abstract   bool              `json:"abstract"` // model includes values chosen for contract/stub outputs
+	Abstract   bool              `json:"abstract"`
+	Ghost      bool              `json:"ghost_parametrised"` // model includes values chosen for contract/stub outputs
 }
 
 func writeCex(path, prop string, r *ObRun, ob *Oblig) *Cex {
@@ -41,6 +42,7 @@ func writeCex(path, prop string, r *ObRun, ob *Oblig) *Cex {
 		cx.Inputs[k] = ob.Model[k].String()
 	}
 	cx.Abstract = (len(r.Uses) > 0 || r.attr("cut", "") != "") && !ob.Concrete
+	cx.Ghost = r.UsedGhost
 	cx.PkgName = r.Ld.pkgs[r.Dir.Pkg].Pkg.Name()
 	b, _ := json.MarshalIndent(cx, "", " ")
 	writeFile(path, string(b)+"\n")
